@@ -93,6 +93,7 @@ def handler(task: dict) -> dict:
         "strategy": plan["strategy"],
         "opcode": plan["opcode"],
         "cache_size": plan["cache_size"],
+        "prefill": plan.get("prefill", 0),
         "fault": plan["fault"],
     }
     if out["violation"] is None:
@@ -129,6 +130,8 @@ def minimise(plan: dict, script: list, cls: str, budget_s: float = 120.0) -> (di
             cands.append(c)
         if plan.get("cache_size") is not None:
             cands.append(dict(plan, cache_size=None))
+        if plan.get("prefill"):
+            cands.append(dict(plan, prefill=0))
         if plan.get("opcode"):
             cands.append(dict(plan, opcode=False))
         for t, th in enumerate(plan["threads"]):
@@ -354,6 +357,7 @@ class Agg:
         self.fault_armed = 0
         self.fault_fired = 0
         self.cache_pressure = 0
+        self.prefill_runs = 0
         self.opcode_runs = 0
         self.opcode_kinds: Dict[str, int] = {}
         self.opcode_crashes = 0
@@ -387,6 +391,8 @@ class Agg:
             self.fault_free_runs += 1
         if pb["cache_size"] is not None:
             self.cache_pressure += 1
+        if pb.get("prefill"):
+            self.prefill_runs += 1
         if pb["opcode"]:
             self.opcode_runs += 1
             self.opcode_kinds[str(pb["opcode"])] = self.opcode_kinds.get(str(pb["opcode"]), 0) + 1
@@ -434,6 +440,7 @@ class Agg:
                 "callback_fault_armed_runs": self.fault_armed,
                 "callback_fault_fired_runs": self.fault_fired,
                 "cache_pressure_runs": self.cache_pressure,
+                "warm_process_prefill_runs": self.prefill_runs,
                 "opcode_granularity_runs": self.opcode_runs,
                 "opcode_granularity_by_kind": self.opcode_kinds,
                 "opcode_runs_rerun_at_line_granularity_after_interpreter_crash": self.opcode_crashes,
